@@ -411,6 +411,12 @@ func genC02(c *w1Case, r *simrt.Rng) {
 	acts = append(acts, "multinote", "cc_learning")
 	o := genOpts{nKeys: [2]int{2, 8}, nMaps: [2]int{1, 3}, notePool: intsRange(30, 100), offsets: true, actions: acts, exitLen: -1, defaults: true,
 		unmapProb: 0.4, remapProb: 0.5, handlers: r.Range(1, 2)}
+	if r.Chance(0.3) {
+		// keys that share pitches (and pitches near the ends of the range, silenced by transposition): a release is
+		// pinned to its own press also when another key holds the same pitch or when the press was silent
+		o.notePool = []int{60, 60, 60, 62, 64, 121, 4}
+		o.nKeys = [2]int{3, 6}
+	}
 	// in a share of the runs sticks and hats are around as well (key emulation, controllers): an action must stay
 	// silent whatever the axes are doing, also a mapping switch away from a deflected key-emulating axis
 	axes := 0
